@@ -606,7 +606,14 @@ func (e *Env) filenamesWriters(c *schema.Ctx) {
 				case "File":
 					// value: <fset>.File(<pos rooted at the case's n>).Name()
 					good := false
-					if call, ok := as.Rhs[0].(*ast.CallExpr); ok && len(call.Args) == 0 && funcKey(c.Callee(call)) == "(*go/token.File).Name" {
+					rhs := ast.Unparen(as.Rhs[0])
+					if id, ok := rhs.(*ast.Ident); ok {
+						// a local that holds the name (`name := tf.Name()`)
+						if def := singleDef(info, holder, id); def != nil {
+							rhs = ast.Unparen(def)
+						}
+					}
+					if call, ok := rhs.(*ast.CallExpr); ok && len(call.Args) == 0 && funcKey(c.Callee(call)) == "(*go/token.File).Name" {
 						recvX := call.Fun.(*ast.SelectorExpr).X
 						if id, ok := recvX.(*ast.Ident); ok {
 							// a local holding the *token.File (e.g. `if tf := fset.File(pos); tf != nil`)
